@@ -51,10 +51,18 @@ def rx_3_4(ctx, rep):
     # the merge test must consult that table for the last character of each piece
     merge_ok = False
     uses_splitlines_true = False
+    # split_lines and the module-level helpers it calls
+    scope_nodes = [f.node]
     for n in ast.walk(f.node):
+        if isinstance(n, ast.Call) and isinstance(n.func, ast.Name) and n.func.id in f.mod.funcs and n.func.id != f.name:
+            scope_nodes.append(f.mod.funcs[n.func.id].node)
+    for n in [x for sc in scope_nodes for x in ast.walk(sc)]:
         if isinstance(n, ast.Compare) and len(n.ops) == 1 and isinstance(n.ops[0], ast.In) \
                 and norm(n.comparators[0]) == '_NON_LINE_BREAKS':
             merge_ok = True
+        if isinstance(n, ast.Call) and isinstance(n.func, ast.Attribute) and n.func.attr == 'endswith' and n.args \
+                and norm(n.args[0]) == '_NON_LINE_BREAKS':
+            merge_ok = True          # str.endswith(tuple): the same test on the last character(s)
         if isinstance(n, ast.Call) and isinstance(n.func, ast.Attribute) and n.func.attr == 'splitlines':
             uses_splitlines_true = bool(n.args) and isinstance(n.args[0], ast.Constant) and n.args[0].value is True
     rep.ob('RX-3', UTILS, 'split_lines', 'last_chr in _NON_LINE_BREAKS', merge_ok or not uses_splitlines_true,
@@ -1013,9 +1021,18 @@ _NL_METHODS = {'endswith', 'startswith', 'rfind', 'find', 'index', 'rindex', 'co
                'rpartition', 'strip', 'rstrip', 'lstrip', 'replace'}
 
 
-def _nl_kind(e):
-    """'n' / 'r' / 'both' when the expression is a string constant (or display of constants) naming line breaks."""
+def _nl_kind(e, mod=None, depth=0):
+    """'n' / 'r' / 'both' when the expression is a string constant (or display of constants, or a module-level constant
+    holding one) naming line breaks."""
     vals = None
+    if isinstance(e, ast.Name) and mod is not None and depth < 2:
+        gv = [v for v in mod.globals.get(e.id, []) or [] if v is not None]
+        if len(gv) == 1:
+            v = gv[0]
+            if isinstance(v, ast.Call) and norm(v.func) in ('frozenset', 'set', 'tuple') and len(v.args) == 1:
+                v = v.args[0]
+            return _nl_kind(v, mod, depth + 1)
+        return None
     if isinstance(e, ast.Constant) and isinstance(e.value, str):
         vals = [e.value]
     elif isinstance(e, (ast.Tuple, ast.Set, ast.List)) and e.elts and all(
@@ -1039,18 +1056,18 @@ def _nl_kind(e):
     return 'n' if has_n else ('r' if has_r else None)
 
 
-def newline_tests(fn_node):
+def newline_tests(fn_node, mod=None):
     """[(shape, kind, node)]: shape identifies the operation and its other operand."""
     out = []
     for n in walk_own(fn_node):
         if isinstance(n, ast.Compare) and len(n.ops) == 1:
             l, r = n.left, n.comparators[0]
             for a, b in ((l, r), (r, l)):
-                k = _nl_kind(a)
+                k = _nl_kind(a, mod)
                 if k and not isinstance(b, ast.Constant):
                     out.append(('%s %s' % (type(n.ops[0]).__name__, norm(b)), k, n))
         elif isinstance(n, ast.Call) and isinstance(n.func, ast.Attribute) and n.func.attr in _NL_METHODS and n.args:
-            k = _nl_kind(n.args[0])
+            k = _nl_kind(n.args[0], mod)
             if k:
                 out.append(('%s.%s' % (norm(n.func.value), n.func.attr), k, n))
     return out
@@ -1063,7 +1080,7 @@ def rx_10(ctx, rep, modules=None):
     for rel in (modules or RX10_MODULES):
         mod = ctx.prog.mod(rel)
         for f in mod.funcs.values():
-            tests = newline_tests(f.node)
+            tests = newline_tests(f.node, mod)
             if not tests:
                 continue
             shapes = {}
